@@ -130,6 +130,21 @@ def generate(rng, tier):
             P("%02x" % a)
             for b in range(256):
                 P("%02x%02x" % (a, b))
+    # the other public routes to the same script (get_script_length, to_hex, from_hex, from_script_bits) on the same inputs;
+    # every PUSHDATA1/2/4 form with payload lengths around the compact-size classes (a length computed from the payload
+    # size instead of the stored push opcode differs exactly there)
+    parse = [a for (op, a) in cases if op == "script.parse"]
+    if len(parse) > 3000:
+        parse = parse[:1500] + rng.sample(parse[1500:], 1500)
+    for a in parse:
+        cases.append(("script.routes", list(a)))
+    for n in [0, 1, 75, 76, 252, 253, 254, 255]:
+        cases.append(("script.routes", ["4c%02x+l:%d:%d" % (n, n + 1, n)]))
+        cases.append(("script.routes", ["51+4c%02x+l:%d:%d+ac" % (n, n + 1, n)]))
+    for n in [0, 1, 75, 76, 252, 253, 255, 256, 65535]:
+        cases.append(("script.routes", ["4d%s+l:%d:%d" % (n.to_bytes(2, "little").hex(), n + 1, n)]))
+        cases.append(("script.routes", ["4e%s+l:%d:%d" % (n.to_bytes(4, "little").hex(), n + 1, n)]))
+        cases.append(("script.routes", ["63+4d%s+l:%d:%d+68" % (n.to_bytes(2, "little").hex(), n + 1, n)]))
     return cases
 
 
